@@ -404,7 +404,7 @@ func main() {
 	for _, n := range names {
 		for _, g := range []geo{{128, 1}, {128, 2}} {
 			b := 0
-			if strings.HasPrefix(n, "k4_") || strings.HasPrefix(n, "k13_") || strings.HasPrefix(n, "k8_") || strings.HasPrefix(n, "k9_") || r.Thorough() {
+			if (strings.HasPrefix(n, "k4_") || strings.HasPrefix(n, "k13_")) && g.NumWG == 1 || r.Thorough() {
 				b = 1
 			}
 			o := cuworld.TimingOpts{Scoreboard: true, Resident: g.NumWG, Delays: []int{9, 60}, MI300AKnobs: true}
@@ -414,6 +414,29 @@ func main() {
 	for _, g := range []geo{{64, 1}, {128, 1}} {
 		o := cuworld.TimingOpts{Resident: 1, Delays: []int{9, 60}, CoalescingPenalty: 3}
 		scs = append(scs, harness.Scenario{Name: fmt.Sprintf("k13_gather_sparse_then_dense_line/wg%dx%d/coalescing-penalty3/resident1", g.WGSize, g.NumWG), Bound: 2, Body: body(ks["k13_gather_sparse_then_dense_line"], g, o)})
+	}
+	// launch history with a whole kernel: another kernel ran to completion on the same CU before (state a CU
+	// keeps across kernels: pools, caches, scratch buffers, LDS, cursors)
+	befores := []struct {
+		k string
+		g geo
+	}{{"k1_lds_barrier", geo{128, 1}}, {"k11_many_stores", geo{64, 2}}, {"k10_many_scalar_loads", geo{128, 1}}, {"k7_late_exit_without_barrier", geo{256, 1}}}
+	for ni, n := range names {
+		for bi, bf := range befores {
+			if !r.Thorough() && bi != ni%len(befores) {
+				continue
+			}
+			g := geo{128, 1}
+			if ni%2 == 1 {
+				g = geo{128, 2}
+			}
+			b := 0
+			if r.Thorough() {
+				b = 1
+			}
+			o := cuworld.TimingOpts{Resident: g.NumWG, Delays: []int{9, 60}, Before: ks[bf.k], BeforeGeo: bf.g, Horizon: 20000}
+			scs = append(scs, harness.Scenario{Name: fmt.Sprintf("%s/wg%dx%d/after-kernel-%s/resident%d", n, g.WGSize, g.NumWG, bf.k, g.NumWG), Bound: b, Body: body(ks[n], g, o)})
+		}
 	}
 	// a dispatcher that is slow to take completions: many small work-groups finish while the CU's 4-entry port
 	// towards it is full
